@@ -2,6 +2,7 @@ package harness
 
 import (
 	"bytes"
+	"runtime/debug"
 	"fmt"
 	"math"
 
@@ -54,7 +55,7 @@ func drainLogs(it *reftable.Iterator) ([]Log, error) {
 func guard(f func() error) (err error) {
 	defer func() {
 		if r := recover(); r != nil {
-			err = fmt.Errorf("panic: %v", r)
+			err = fmt.Errorf("panic: %v at %s", r, panicSite(string(debug.Stack())))
 		}
 	}()
 	return f()
@@ -155,8 +156,14 @@ func (w *World) checkSeeks(prop, what string, tab reftable.Table, refs []Ref, lo
 			lks = append(lks, lk{l.Name, l.Idx - 1})
 		}
 	}
+	// (ref names never contain NUL; a NUL inside the seek name would
+	// address the key space between a name and its update indices, where
+	// the statement's name-based suffix rule is not defined)
 	for _, nm := range names {
-		lks = append(lks, lk{nm, math.MaxUint64}, lk{nm + "\x00", 3})
+		lks = append(lks, lk{nm, math.MaxUint64}, lk{nm + "/", 3}, lk{nm + "!", 2})
+		if len(nm) > 1 {
+			lks = append(lks, lk{nm[:len(nm)-1], math.MaxUint64})
+		}
 	}
 	for n := 0; n < budget && len(lks) > 0; n++ {
 		k := lks[rng.Intn(len(lks))]
